@@ -16,6 +16,7 @@ import (
 	_ "embed"
 	"fmt"
 	"go/ast"
+	"go/format"
 	"go/parser"
 	"go/token"
 	"go/types"
@@ -33,16 +34,736 @@ import (
 //go:embed inventory.txt
 var inventoryText string
 
+//go:embed fields.txt
+var fieldInventoryText string
+
+// fieldInventory: the unexported struct fields of the confirmed tree ("pkg Type.field" -> type as written).
+var fieldInventory = func() map[string]string {
+	m := map[string]string{}
+	for _, l := range strings.Split(fieldInventoryText, "\n") {
+		l = strings.TrimRight(l, " \r")
+		if l == "" || strings.HasPrefix(l, "#") {
+			continue
+		}
+		key, typ, _ := strings.Cut(l, "\t")
+		m[strings.TrimSpace(key)] = typ
+	}
+	return m
+}()
+
+// structFields lists the unexported named fields of the struct types declared in file f: key "rel Type.field".
+func structFields(rel string, f *ast.File, visit func(key, typ string, id *ast.Ident, ts *ast.TypeSpec)) {
+	for _, d := range f.Decls {
+		gd, ok := d.(*ast.GenDecl)
+		if !ok || gd.Tok != token.TYPE {
+			continue
+		}
+		for _, sp := range gd.Specs {
+			ts, ok := sp.(*ast.TypeSpec)
+			if !ok {
+				continue
+			}
+			st, ok := ts.Type.(*ast.StructType)
+			if !ok || st.Fields == nil {
+				continue
+			}
+			for _, fl := range st.Fields.List {
+				for _, id := range fl.Names {
+					if !id.IsExported() && id.Name != "_" {
+						visit(rel+" "+ts.Name.Name+"."+id.Name, types.ExprString(fl.Type), id, ts)
+					}
+				}
+			}
+		}
+	}
+}
+
+// structTypes lists the struct types declared in file f: key "rel Type".
+func structTypes(rel string, f *ast.File, visit func(key string, ts *ast.TypeSpec)) {
+	for _, d := range f.Decls {
+		gd, ok := d.(*ast.GenDecl)
+		if !ok || gd.Tok != token.TYPE {
+			continue
+		}
+		for _, sp := range gd.Specs {
+			if ts, ok := sp.(*ast.TypeSpec); ok {
+				if _, ok := ts.Type.(*ast.StructType); ok {
+					visit(rel+" "+ts.Name.Name, ts)
+				}
+			}
+		}
+	}
+}
+
+// dissolveParamObjects undoes "introduce parameter object" for unexported functions: when a function has a parameter
+// whose type is a struct declared in this package that the inventory does not know, the function only reads fields of
+// that parameter, and every call passes a composite literal of the type, the parameter is replaced by one parameter
+// per field (named like the field) and each call by the literal's elements in field order (the zero value where the
+// literal leaves a field out). The rules then see the positional form they were confirmed on.
+func dissolveParamObjects(p *packages.Package, res *normResult) (bool, error) {
+	rel := relOf(p.PkgPath)
+	if rel == "" {
+		rel = "."
+	}
+	info := p.TypesInfo
+	// unknown struct types of this package
+	unknownT := map[*types.TypeName]*ast.StructType{}
+	for _, f := range p.Syntax {
+		structTypes(rel, f, func(key string, ts *ast.TypeSpec) {
+			if _, ok := fieldInventory[key]; ok {
+				return
+			}
+			if tn, ok := info.Defs[ts.Name].(*types.TypeName); ok {
+				unknownT[tn] = ts.Type.(*ast.StructType)
+			}
+		})
+	}
+	if len(unknownT) == 0 {
+		return false, nil
+	}
+	type edit struct {
+		file     string
+		from, to int
+		text     string
+	}
+	src := func(n ast.Node) (string, error) {
+		tf := p.Fset.File(n.Pos())
+		b, err := fileContent(tf.Name(), res)
+		if err != nil {
+			return "", err
+		}
+		return string(b[tf.Offset(n.Pos()):tf.Offset(n.End())]), nil
+	}
+	for _, f := range p.Syntax {
+		for _, d := range f.Decls {
+			fd, ok := d.(*ast.FuncDecl)
+			if !ok || fd.Body == nil || fd.Name.IsExported() || fd.Type.Params == nil {
+				continue
+			}
+			fobj, _ := info.Defs[fd.Name].(*types.Func)
+			if fobj == nil {
+				continue
+			}
+			for _, fld := range fd.Type.Params.List {
+				if len(fld.Names) != 1 {
+					continue
+				}
+				pv, _ := info.Defs[fld.Names[0]].(*types.Var)
+				if pv == nil {
+					continue
+				}
+				nt, ok := types.Unalias(pv.Type()).(*types.Named)
+				if !ok {
+					continue
+				}
+				stAst, ok := unknownT[nt.Obj()]
+				if !ok {
+					continue
+				}
+				st := nt.Underlying().(*types.Struct)
+				// field list in order, with the type as written
+				type fieldInfo struct {
+					name, typ string
+					v         *types.Var
+				}
+				var fields []fieldInfo
+				okFields := true
+				for _, sf := range stAst.Fields.List {
+					if len(sf.Names) == 0 {
+						okFields = false // embedded
+						break
+					}
+					ts, err := src(sf.Type)
+					if err != nil {
+						return false, err
+					}
+					for _, nm := range sf.Names {
+						fv, _ := info.Defs[nm].(*types.Var)
+						fields = append(fields, fieldInfo{nm.Name, ts, fv})
+					}
+				}
+				if !okFields || len(fields) == 0 || len(fields) != st.NumFields() {
+					continue
+				}
+				// the body only reads fields of the parameter; field names are free inside the function
+				used := map[string]bool{}
+				ast.Inspect(fd, func(n ast.Node) bool {
+					if id, ok := n.(*ast.Ident); ok {
+						used[id.Name] = true
+					}
+					return true
+				})
+				clash := false
+				for _, fi := range fields {
+					// a field name may appear as the selector of the parameter itself, nowhere else as a plain identifier
+					cnt := 0
+					ast.Inspect(fd, func(n ast.Node) bool {
+						if se, ok := n.(*ast.SelectorExpr); ok {
+							ast.Inspect(se.X, func(m ast.Node) bool {
+								if id, ok := m.(*ast.Ident); ok && id.Name == fi.name {
+									cnt++
+								}
+								return true
+							})
+							return false
+						}
+						if id, ok := n.(*ast.Ident); ok && id.Name == fi.name {
+							cnt++
+						}
+						return true
+					})
+					if cnt > 0 {
+						clash = true
+					}
+				}
+				if clash {
+					continue
+				}
+				var edits []edit
+				simple := true
+				ast.Inspect(fd.Body, func(n ast.Node) bool {
+					switch x := n.(type) {
+					case *ast.SelectorExpr:
+						if id, ok := ast.Unparen(x.X).(*ast.Ident); ok && info.Uses[id] == types.Object(pv) {
+							tf := p.Fset.File(x.Pos())
+							edits = append(edits, edit{tf.Name(), tf.Offset(x.Pos()), tf.Offset(x.End()), x.Sel.Name})
+							return false
+						}
+					case *ast.Ident:
+						if info.Uses[x] == types.Object(pv) {
+							simple = false // the whole object is used
+						}
+					case *ast.AssignStmt:
+						for _, l := range x.Lhs {
+							if se, ok := ast.Unparen(l).(*ast.SelectorExpr); ok {
+								if id, ok := ast.Unparen(se.X).(*ast.Ident); ok && info.Uses[id] == types.Object(pv) {
+									simple = false
+								}
+							}
+						}
+					case *ast.UnaryExpr:
+						if x.Op == token.AND {
+							if se, ok := ast.Unparen(x.X).(*ast.SelectorExpr); ok {
+								if id, ok := ast.Unparen(se.X).(*ast.Ident); ok && info.Uses[id] == types.Object(pv) {
+									simple = false
+								}
+							}
+						}
+					}
+					return true
+				})
+				if !simple {
+					continue
+				}
+				// the parameter's position among the call arguments
+				argIdx := 0
+				found := false
+				for _, f2 := range fd.Type.Params.List {
+					if f2 == fld {
+						found = true
+						break
+					}
+					argIdx += len(f2.Names)
+				}
+				if !found {
+					continue
+				}
+				// call sites
+				callsOK := true
+				for id, o := range info.Uses {
+					if fn, ok := o.(*types.Func); !ok || fn.Origin() != fobj {
+						continue
+					}
+					// find the call this identifier is the callee of
+					var call *ast.CallExpr
+					for _, f3 := range p.Syntax {
+						if f3.Pos() <= id.Pos() && id.End() <= f3.End() {
+							ast.Inspect(f3, func(n ast.Node) bool {
+								if ce, ok := n.(*ast.CallExpr); ok {
+									fun := ast.Unparen(ce.Fun)
+									if se, ok := fun.(*ast.SelectorExpr); ok && se.Sel == id {
+										call = ce
+									}
+									if fid, ok := fun.(*ast.Ident); ok && fid == id {
+										call = ce
+									}
+								}
+								return true
+							})
+						}
+					}
+					if call == nil || argIdx >= len(call.Args) {
+						callsOK = false
+						break
+					}
+					lit, ok := ast.Unparen(call.Args[argIdx]).(*ast.CompositeLit)
+					if !ok {
+						callsOK = false
+						break
+					}
+					vals := make([]string, len(fields))
+					for i, fi := range fields {
+						vals[i] = "*new(" + fi.typ + ")"
+						switch b := fi.v.Type().Underlying().(type) {
+						case *types.Basic:
+							switch {
+							case b.Info()&types.IsBoolean != 0:
+								vals[i] = "false"
+							case b.Info()&types.IsString != 0:
+								vals[i] = `""`
+							case b.Info()&types.IsNumeric != 0:
+								vals[i] = "0"
+							}
+						case *types.Pointer, *types.Signature, *types.Interface, *types.Map, *types.Slice, *types.Chan:
+							vals[i] = "nil"
+						}
+					}
+					for i, el := range lit.Elts {
+						if kv, ok := el.(*ast.KeyValueExpr); ok {
+							k, ok := kv.Key.(*ast.Ident)
+							if !ok {
+								callsOK = false
+								break
+							}
+							for j, fi := range fields {
+								if fi.name == k.Name {
+									t, err := src(kv.Value)
+									if err != nil {
+										return false, err
+									}
+									vals[j] = t
+								}
+							}
+						} else if i < len(fields) {
+							t, err := src(el)
+							if err != nil {
+								return false, err
+							}
+							vals[i] = t
+						}
+					}
+					if !callsOK {
+						break
+					}
+					tf := p.Fset.File(call.Args[argIdx].Pos())
+					edits = append(edits, edit{tf.Name(), tf.Offset(call.Args[argIdx].Pos()), tf.Offset(call.Args[argIdx].End()), strings.Join(vals, ", ")})
+				}
+				if !callsOK {
+					continue
+				}
+				// the signature
+				var ps []string
+				for _, fi := range fields {
+					ps = append(ps, fi.name+" "+fi.typ)
+				}
+				tf := p.Fset.File(fld.Pos())
+				edits = append(edits, edit{tf.Name(), tf.Offset(fld.Pos()), tf.Offset(fld.End()), strings.Join(ps, ", ")})
+				// apply
+				perFile := map[string][]edit{}
+				for _, e := range edits {
+					perFile[e.file] = append(perFile[e.file], e)
+				}
+				backup := map[string][]byte{}
+				for name, es := range perFile {
+					content, err := fileContent(name, res)
+					if err != nil {
+						return false, err
+					}
+					backup[name] = content
+					sort.Slice(es, func(i, j int) bool { return es[i].from > es[j].from })
+					b := append([]byte{}, content...)
+					for _, e := range es {
+						b = append(b[:e.from], append([]byte(e.text), b[e.to:]...)...)
+					}
+					if fixed, err := format.Source(b); err == nil {
+						b = fixed
+					}
+					res.Overlay[name] = b
+				}
+				_ = backup
+				res.Notes = append(res.Notes, fmt.Sprintf("%s: parameter %s of %s is an object of the new type %s; dissolved into one parameter per field at the declaration and its call sites", rel, fld.Names[0].Name, recvName(fd), nt.Obj().Name()))
+				return true, nil
+			}
+		}
+	}
+	return false, nil
+}
+
+// renameFieldsBack is renameBack for unexported struct fields: a struct that lacks a field of the inventory and has
+// exactly one unknown unexported field of the same type (and no other missing field of that type) has had that field
+// renamed; the analysed text gets the old name back at the declaration and at every use.
+func renameFieldsBack(p *packages.Package, res *normResult) (bool, error) {
+	rel := relOf(p.PkgPath)
+	if rel == "" {
+		rel = "."
+	}
+	type fld struct {
+		key, typ string
+		id       *ast.Ident
+	}
+	declared := map[string]bool{}
+	unknown := map[string][]fld{} // per struct type
+	for _, f := range p.Syntax {
+		structFields(rel, f, func(key, typ string, id *ast.Ident, ts *ast.TypeSpec) {
+			declared[key] = true
+			if _, ok := fieldInventory[key]; !ok {
+				unknown[ts.Name.Name] = append(unknown[ts.Name.Name], fld{key, typ, id})
+			}
+		})
+	}
+	if len(unknown) == 0 {
+		return false, nil
+	}
+	missing := map[string][]fld{}
+	for key, typ := range fieldInventory {
+		pk, name, _ := strings.Cut(key, " ")
+		if pk != rel || declared[key] || !strings.Contains(name, ".") {
+			continue
+		}
+		tn, _, _ := strings.Cut(name, ".")
+		missing[tn] = append(missing[tn], fld{key, typ, nil})
+	}
+	type edit struct {
+		file     string
+		off, len int
+		text     string
+	}
+	var edits []edit
+	var notes []string
+	for tn, us := range unknown {
+		for _, u := range us {
+			var ms []fld
+			for _, m := range missing[tn] {
+				if m.typ == u.typ {
+					ms = append(ms, m)
+				}
+			}
+			same := 0
+			for _, u2 := range us {
+				if u2.typ == u.typ {
+					same++
+				}
+			}
+			if len(ms) != 1 || same != 1 {
+				continue
+			}
+			obj := p.TypesInfo.Defs[u.id]
+			if obj == nil {
+				continue
+			}
+			oldName := ms[0].key[strings.LastIndex(ms[0].key, ".")+1:]
+			add := func(id *ast.Ident) {
+				tf := p.Fset.File(id.Pos())
+				edits = append(edits, edit{tf.Name(), tf.Offset(id.Pos()), len(id.Name), oldName})
+			}
+			add(u.id)
+			for id, o := range p.TypesInfo.Uses {
+				if o == obj {
+					add(id)
+				}
+			}
+			notes = append(notes, fmt.Sprintf("%s: field %s.%s is %s of the inventory under a new name (same type, the only candidate); analysed under its old name", rel, tn, u.id.Name, oldName))
+		}
+	}
+	if len(edits) == 0 {
+		return false, nil
+	}
+	perFile := map[string][]edit{}
+	for _, e := range edits {
+		perFile[e.file] = append(perFile[e.file], e)
+	}
+	for name, es := range perFile {
+		content, err := fileContent(name, res)
+		if err != nil {
+			return false, err
+		}
+		sort.Slice(es, func(i, j int) bool { return es[i].off > es[j].off })
+		b := append([]byte{}, content...)
+		for _, e := range es {
+			b = append(b[:e.off], append([]byte(e.text), b[e.off+e.len:]...)...)
+		}
+		res.Overlay[name] = b
+	}
+	sort.Strings(notes)
+	res.Notes = append(res.Notes, notes...)
+	return true, nil
+}
+
+// inventorySig: the parameter and result types (names dropped) the function had in the confirmed tree, for telling a
+// renamed function from a new one (renameBack).
+var inventorySig = map[string]string{}
+
+// inventoryNames: the names of the parameters and results in the confirmed tree, comma-separated in declaration order
+// (renameParamsBack).
+var inventoryNames = map[string]string{}
+
+// paramNames: the names of fd's parameters and results in declaration order ("_" for unnamed ones).
+func paramNames(fd *ast.FuncDecl) []*ast.Ident {
+	var out []*ast.Ident
+	for _, fl := range []*ast.FieldList{fd.Type.Params, fd.Type.Results} {
+		if fl == nil {
+			continue
+		}
+		for _, f := range fl.List {
+			if len(f.Names) == 0 {
+				out = append(out, nil)
+			}
+			out = append(out, f.Names...)
+		}
+	}
+	return out
+}
+
+func paramNamesKey(fd *ast.FuncDecl) string {
+	var ns []string
+	for _, id := range paramNames(fd) {
+		if id == nil {
+			ns = append(ns, "_")
+		} else {
+			ns = append(ns, id.Name)
+		}
+	}
+	return strings.Join(ns, ",")
+}
+
+// renameParamsBack: several rules find "the offset parameter" or "the overwrite parameter" of a function by its name
+// and read units off names (record, block). A function of the inventory whose parameter types are unchanged but whose
+// parameter names differ has had parameters renamed; the analysed text gets the old names back (only where the old
+// name is not used for anything else inside the function).
+func renameParamsBack(p *packages.Package, res *normResult) (bool, error) {
+	type edit struct {
+		file     string
+		off, len int
+		text     string
+	}
+	var edits []edit
+	var notes []string
+	for _, f := range p.Syntax {
+		for _, d := range f.Decls {
+			fd, ok := d.(*ast.FuncDecl)
+			if !ok || fd.Body == nil {
+				continue
+			}
+			k := inventoryKey(p.PkgPath, fd)
+			if !inventory[k] || inventorySig[k] != sigKey(fd) || inventoryNames[k] == paramNamesKey(fd) {
+				continue
+			}
+			olds := strings.Split(inventoryNames[k], ",")
+			ids := paramNames(fd)
+			if len(olds) != len(ids) {
+				continue
+			}
+			used := map[string]bool{}
+			ast.Inspect(fd, func(n ast.Node) bool {
+				if id, ok := n.(*ast.Ident); ok {
+					used[id.Name] = true
+				}
+				return true
+			})
+			for i, id := range ids {
+				if id == nil || id.Name == "_" || olds[i] == "_" || olds[i] == id.Name || used[olds[i]] {
+					continue
+				}
+				obj := p.TypesInfo.Defs[id]
+				if obj == nil {
+					continue
+				}
+				add := func(x *ast.Ident) {
+					tf := p.Fset.File(x.Pos())
+					edits = append(edits, edit{tf.Name(), tf.Offset(x.Pos()), len(x.Name), olds[i]})
+				}
+				add(id)
+				ast.Inspect(fd.Body, func(n ast.Node) bool {
+					if x, ok := n.(*ast.Ident); ok && p.TypesInfo.Uses[x] == obj {
+						add(x)
+					}
+					return true
+				})
+				notes = append(notes, fmt.Sprintf("%s: parameter %s of %s is %s of the inventory under a new name; analysed under its old name", relOf(p.PkgPath), id.Name, recvName(fd), olds[i]))
+			}
+		}
+	}
+	if len(edits) == 0 {
+		return false, nil
+	}
+	perFile := map[string][]edit{}
+	for _, e := range edits {
+		perFile[e.file] = append(perFile[e.file], e)
+	}
+	for name, es := range perFile {
+		content, err := fileContent(name, res)
+		if err != nil {
+			return false, err
+		}
+		sort.Slice(es, func(i, j int) bool { return es[i].off > es[j].off })
+		b := append([]byte{}, content...)
+		for _, e := range es {
+			b = append(b[:e.off], append([]byte(e.text), b[e.off+e.len:]...)...)
+		}
+		res.Overlay[name] = b
+	}
+	sort.Strings(notes)
+	res.Notes = append(res.Notes, notes...)
+	return true, nil
+}
+
 var inventory = func() map[string]bool {
 	m := map[string]bool{}
 	for _, l := range strings.Split(inventoryText, "\n") {
-		l = strings.TrimSpace(l)
-		if l != "" && !strings.HasPrefix(l, "#") {
-			m[l] = true
+		l = strings.TrimRight(l, " \r")
+		if l == "" || strings.HasPrefix(l, "#") {
+			continue
+		}
+		key, sig, _ := strings.Cut(l, "\t")
+		key = strings.TrimSpace(key)
+		m[key] = true
+		if sig != "" {
+			sig, names, _ := strings.Cut(sig, "\t")
+			inventorySig[key] = sig
+			inventoryNames[key] = names
 		}
 	}
 	return m
 }()
+
+// sigKey: the parameter and result types of a declaration as written, without names.
+func sigKey(fd *ast.FuncDecl) string {
+	list := func(fl *ast.FieldList) string {
+		if fl == nil {
+			return ""
+		}
+		var ts []string
+		for _, f := range fl.List {
+			n := len(f.Names)
+			if n == 0 {
+				n = 1
+			}
+			for i := 0; i < n; i++ {
+				ts = append(ts, types.ExprString(f.Type))
+			}
+		}
+		return strings.Join(ts, ", ")
+	}
+	return "(" + list(fd.Type.Params) + ") (" + list(fd.Type.Results) + ")"
+}
+
+// renameBack undoes the renaming of an unexported function the rules are anchored on: when the package lacks a function
+// of the inventory and declares exactly one unknown unexported function with the same receiver and the same parameter
+// and result types - and that pairing is unambiguous in both directions - the unknown function is the old one under a
+// new name. Its declaration and every reference inside the package get the old name back in the analysed text (the
+// alternative, inlining it into its callers as a "new helper", would leave every rule anchored on it without an anchor).
+func renameBack(p *packages.Package, res *normResult) (bool, error) {
+	rel := relOf(p.PkgPath)
+	if rel == "" {
+		rel = "."
+	}
+	declared := map[string]bool{}
+	var unknown []*ast.FuncDecl
+	for _, f := range p.Syntax {
+		for _, d := range f.Decls {
+			if fd, ok := d.(*ast.FuncDecl); ok {
+				k := inventoryKey(p.PkgPath, fd)
+				declared[k] = true
+				if !inventory[k] && fd.Body != nil && !fd.Name.IsExported() {
+					unknown = append(unknown, fd)
+				}
+			}
+		}
+	}
+	if len(unknown) == 0 {
+		return false, nil
+	}
+	recvOf := func(name string) string {
+		if i := strings.LastIndex(name, "."); i >= 0 {
+			return name[:i]
+		}
+		return ""
+	}
+	var missing []string
+	for k := range inventory {
+		pk, name, _ := strings.Cut(k, " ")
+		if pk != rel || declared[k] || inventorySig[k] == "" {
+			continue
+		}
+		base := name[strings.LastIndex(name, ".")+1:]
+		if ast.IsExported(base) || base == "init" || base == "main" {
+			continue
+		}
+		missing = append(missing, k)
+	}
+	sort.Strings(missing)
+	match := func(k string, fd *ast.FuncDecl) bool {
+		_, name, _ := strings.Cut(k, " ")
+		return recvOf(name) == recvOf(recvName(fd)) && inventorySig[k] == sigKey(fd)
+	}
+	type edit struct {
+		file     string
+		off, len int
+		text     string
+	}
+	var edits []edit
+	var notes []string
+	for _, k := range missing {
+		var cands []*ast.FuncDecl
+		for _, fd := range unknown {
+			if match(k, fd) {
+				cands = append(cands, fd)
+			}
+		}
+		if len(cands) != 1 {
+			continue
+		}
+		others := 0
+		for _, k2 := range missing {
+			if k2 != k && match(k2, cands[0]) {
+				others++
+			}
+		}
+		if others > 0 {
+			continue
+		}
+		fd := cands[0]
+		obj := p.TypesInfo.Defs[fd.Name]
+		if obj == nil {
+			continue
+		}
+		_, name, _ := strings.Cut(k, " ")
+		oldName := name[strings.LastIndex(name, ".")+1:]
+		add := func(id *ast.Ident) {
+			tf := p.Fset.File(id.Pos())
+			edits = append(edits, edit{tf.Name(), tf.Offset(id.Pos()), len(id.Name), oldName})
+		}
+		add(fd.Name)
+		for id, o := range p.TypesInfo.Uses {
+			if fn, ok := o.(*types.Func); ok && types.Object(fn.Origin()) == obj {
+				add(id)
+			}
+		}
+		notes = append(notes, fmt.Sprintf("%s: %s is %s of the inventory under a new name (same receiver, parameter and result types; the only candidate); analysed under its old name", rel, recvName(fd), name))
+	}
+	if len(edits) == 0 {
+		return false, nil
+	}
+	perFile := map[string][]edit{}
+	for _, e := range edits {
+		perFile[e.file] = append(perFile[e.file], e)
+	}
+	for name, es := range perFile {
+		content, err := fileContent(name, res)
+		if err != nil {
+			return false, err
+		}
+		sort.Slice(es, func(i, j int) bool { return es[i].off > es[j].off })
+		b := append([]byte{}, content...)
+		for _, e := range es {
+			b = append(b[:e.off], append([]byte(e.text), b[e.off+e.len:]...)...)
+		}
+		res.Overlay[name] = b
+	}
+	sort.Strings(notes)
+	res.Notes = append(res.Notes, notes...)
+	return true, nil
+}
 
 func inventoryKey(pkgPath string, fd *ast.FuncDecl) string {
 	rel := strings.TrimPrefix(strings.TrimPrefix(pkgPath, modPath), "/")
@@ -58,6 +779,12 @@ type normResult struct {
 }
 
 var normCache = map[string]*normResult{}
+
+var fieldsDone = map[string]bool{}
+
+var paramsDone = map[string]bool{}
+
+var dissolveRounds = map[string]int{}
 
 // normalise computes the overlay for the tree at dir (cached per directory and process).
 func normalise(dir string, env []string) (*normResult, error) {
@@ -92,7 +819,22 @@ func normalise(dir string, env []string) (*normResult, error) {
 			if perr != nil {
 				continue // the typed load reports it
 			}
+			structFields(relOf(p.PkgPath), f, func(key, typ string, id *ast.Ident, ts *ast.TypeSpec) {
+				if _, ok := fieldInventory[key]; !ok {
+					work = append(work, p.PkgPath)
+				}
+			})
+			structTypes(relOf(p.PkgPath), f, func(key string, ts *ast.TypeSpec) {
+				if _, ok := fieldInventory[key]; !ok {
+					work = append(work, p.PkgPath)
+				}
+			})
 			for _, d := range f.Decls {
+				if fd, ok := d.(*ast.FuncDecl); ok {
+					if k := inventoryKey(p.PkgPath, fd); inventory[k] && inventorySig[k] == sigKey(fd) && inventoryNames[k] != paramNamesKey(fd) {
+						work = append(work, p.PkgPath)
+					}
+				}
 				if fd, ok := d.(*ast.FuncDecl); ok && !inventory[inventoryKey(p.PkgPath, fd)] {
 					work = append(work, p.PkgPath)
 				}
@@ -128,6 +870,37 @@ func normalisePackage(pkgPath string, loadPkgs func(...string) ([]*packages.Pack
 		p := pkgs[0]
 		if len(p.Errors) > 0 {
 			return fmt.Errorf("type errors after inlining: %v", p.Errors[0])
+		}
+		if iter == 0 {
+			if renamed, err := renameBack(p, res); err != nil {
+				return err
+			} else if renamed {
+				continue
+			}
+		}
+		if iter <= 2 && !paramsDone[pkgPath] {
+			paramsDone[pkgPath] = true
+			if renamed, err := renameParamsBack(p, res); err != nil {
+				return err
+			} else if renamed {
+				continue
+			}
+		}
+		if iter <= 6 && dissolveRounds[pkgPath] < 3 {
+			dissolveRounds[pkgPath]++
+			if changed, err := dissolveParamObjects(p, res); err != nil {
+				return err
+			} else if changed {
+				continue
+			}
+		}
+		if iter <= 3 && !fieldsDone[pkgPath] {
+			fieldsDone[pkgPath] = true
+			if renamed, err := renameFieldsBack(p, res); err != nil {
+				return err
+			} else if renamed {
+				continue
+			}
 		}
 		// unknown helpers declared in this package
 		unknown := map[*types.Func]*ast.FuncDecl{}
